@@ -1,5 +1,6 @@
 #include "AdaptiveHuffmanTree.h"
 #include <utility>
+#include <limits>
 #include <string>
 #include <stdexcept>
 
@@ -89,6 +90,12 @@ namespace OP2Utility::Archive
 	void AdaptiveHuffmanTree::UpdateCodeCount(NodeData code)
 	{
 		VerifyNodeDataInBounds(code);
+
+		// The root's count grows by one per update. Refuse the update that would overflow it,
+		// rather than letting the counts wrap and the block leader search run off the tree.
+		if (subtreeCount[rootNodeIndex] == std::numeric_limits<NodeType>::max()) {
+			throw std::runtime_error("AdaptiveHuffmanTree code count capacity exceeded");
+		}
 
 		// Get the index of the node containing this code
 		NodeIndex curNodeIndex = parentIndex[code + nodeCount];
